@@ -184,7 +184,11 @@ def gen_num_expr(c: Ctx, vars_, depth: int, in_binop: bool = False):
         f = c.pick(cfg.funcs)
         if f == "Mod":
             a = gen_num_expr(c, vars_, depth - 1)
-            b = gen_num_expr(c, vars_, min(depth - 1, 2)) if c.p(0.3) else ["num", c.pick(["2", "3", "0.5", "1.5", "7"])]
+            # divisor: a literal, or an expression that cannot vanish (Mod by zero is no model)
+            if c.p(0.3):
+                b = ["bin", "+", ["call", "abs", gen_num_expr(c, vars_, min(depth - 1, 2))], ["num", c.pick(["1", "0.5", "2"])]]
+            else:
+                b = ["num", c.pick(["2", "3", "0.5", "1.5", "7"])]
             if c.p(0.3):
                 b = ["neg", b]
             return ["call", "Mod", a, b]
